@@ -267,8 +267,10 @@ Definition fallback1 (fbfee fbgas : N) : proposer1 :=
    configuration when resolving a proposer"). *)
 Definition proposer_config_v1 (c : config1) (key fbfee fbgas : N) : prop_cfg :=
   let entry := match aget (c1_props c) key with          (* proposerConfig, exists := map[pubkey] *)
-               | Some e => e                              (* exists (possibly a nil pointer) *)
-               | None => c1_default c                     (* try the default config *)
+               | Some (Some q) => Some q
+               | Some None                                (* exists but is a nil pointer (JSON null) *)
+               | None => c1_default c                     (* try the default config (fix: a null
+                                                             entry used to skip it) *)
                end in
   let q := match entry with
            | Some q => q
@@ -288,7 +290,7 @@ Definition proposer_config_v1 (c : config1) (key fbfee fbgas : N) : prop_cfg :=
 Definition select1 (c : config1) (key fbfee fbgas : N) : proposer1 :=
   match aget (c1_props c) key with
   | Some (Some q) => q
-  | Some None => fallback1 fbfee fbgas
+  | Some None                                  (* a null entry is no entry *)
   | None => or_else (c1_default c) (fallback1 fbfee fbgas)
   end.
 
@@ -311,8 +313,7 @@ Definition resolve_v1 (c : config1) (key fbfee fbgas : N) : prop_cfg :=
    value is found in the default_config section it is used; otherwise, the fallback value is
    used" (its example: an entry with only a fee recipient takes the builder of the default
    configuration).  The code selects one whole entry instead ([resolve_v1]); the two differ when
-   the validator's entry is null, lacks a gas limit the default has, or lacks a builder the
-   default has (known finding C10-v1-entry-not-fieldwise; Proofs/C10.v proves both directions). *)
+   the validator's entry lacks a gas limit the default has, or lacks a builder the default has (known finding C10-v1-entry-not-fieldwise; Proofs/C10.v proves both directions). *)
 Definition gas_of1 (q : proposer1) : option N := if q_gas q =? 0 then None else Some (q_gas q).
 
 Definition resolve_v1_doc (c : config1) (key fbfee fbgas : N) : prop_cfg :=
@@ -335,8 +336,7 @@ Definition resolve_v1_doc (c : config1) (key fbfee fbgas : N) : prop_cfg :=
 (* the lookups on which the two readings coincide: no entry for the key, or a complete one *)
 Definition v1_entry_complete (c : config1) (key : N) : bool :=
   match aget (c1_props c) key with
-  | None => true
-  | Some None => false
+  | None | Some None => true
   | Some (Some q) => negb (q_gas q =? 0) && match q_builder q with Some _ => true | None => false end
   end.
 
